@@ -72,7 +72,7 @@ def _axis_between(ctx, t, d):
     return ctx.Not(ctx.Or(agree, oppose))
 
 
-@obligation("O02.3a", ["C02", "C01", "C06"], UNITS[1:2] + UNITS[:1],
+@obligation("O02.3a", ["C02", "C01", "C06", "C10"], UNITS[1:2] + UNITS[:1],
             "circular interface (>=3 points): the vector at an end junction is parallel to the circle's tangent there and points along the first segment",
             known={"axis-between": "KF-C02-sign-forcing"})
 def o02_3a(tier):
@@ -97,6 +97,34 @@ def o02_3a(tier):
     out = [(f"n={n},{'last' if e else 'first'},{fit}", mk(n, e, fit, False))
            for n in ((3, 4) if tier == "quick" else (3, 4, 5, 9, 17)) for e in (False, True) for fit in ("dlite", "taubinSVD")]
     out.append(("axis-between", mk(3, False, "dlite", True)))
+
+    def h_twice(ctx):
+        # frame condition / no memo: a second call with the other fit method uses THAT fit's centre (C10: results are a function of the last call's arguments)
+        n = 3
+        pts = [(ctx.real(f"x{i}"), ctx.real(f"y{i}")) for i in range(n)]
+        c1, c2 = (ctx.real("c1x"), ctx.real("c1y")), (ctx.real("c2x"), ctx.real("c2y"))
+
+        def centre(it, a, k):
+            return c1 if k.get("method", a[1] if len(a) > 1 else "dlite") == "dlite" else c2
+        ctx.stub("forsys.virtual_edges:calculate_circle_center", centre, "A-fit: each fit method returns its own centre")
+        vs = mk_vertices(ctx, pts)
+        mk_small_edges(ctx, vs)
+        be = mk_bigedge(ctx, 0, vs)
+        P, Q = pts[0], pts[1]
+        distinct_pts(ctx, P, Q)
+        d = (Q[0] - P[0], Q[1] - P[1])
+        for c in (c1, c2):
+            t = (-(P[1] - c[1]), P[0] - c[0])
+            ctx.assume(ctx.Not(ctx.zero(t[0] * d[0] + t[1] * d[1])), "pre")
+            ctx.assume(ctx.Not(_axis_between(ctx, t, d)), "pre:class")
+        first = ctx.list_of(ctx.callm(be, "get_vector_from_vertex", 0, fit_method="dlite"))
+        second = ctx.list_of(ctx.callm(be, "get_vector_from_vertex", 0, fit_method="taubinSVD"))
+        t2 = (-(P[1] - c2[1]), P[0] - c2[0])
+        ctx.ensure(ctx.zero(second[0] * t2[1] - second[1] * t2[0]), "second call: parallel to the tangent of the SECOND fit")
+        ctx.ensure(ctx.close(second[0] * second[0] + second[1] * second[1], t2[0] * t2[0] + t2[1] * t2[1]), "second call: length from the SECOND fit's centre")
+        again = ctx.list_of(ctx.callm(be, "get_vector_from_vertex", 0, fit_method="dlite"))
+        ctx.ensure(ctx.And(ctx.close(again[0], first[0]), ctx.close(again[1], first[1])), "third call with the first method reproduces the first result")
+    out.append(("repeated-calls-other-fit-method", h_twice))
     return out
 
 
